@@ -214,7 +214,13 @@ fn op_build<T: Kind>(req: &Value) -> Value {
         Ok(t) => t,
         Err(e) => return json!({ "err": e }),
     };
-    let mut b: GenericPurlBuilder<T> = GenericPurlBuilder::new(ty, unhex(&req["name"]));
+    // entry point: the builder's own constructor (default), GenericPurl::builder, or GenericPurl::new (no steps)
+    let via = req["via"].as_str().unwrap_or("ctor");
+    if via == "new" {
+        return result_json::<T>(GenericPurl::<T>::new(ty, unhex(&req["name"])));
+    }
+    let mut b: GenericPurlBuilder<T> =
+        if via == "builder" { GenericPurl::<T>::builder(ty, unhex(&req["name"])) } else { GenericPurlBuilder::new(ty, unhex(&req["name"])) };
     for st in req["steps"].as_array().map(|v| v.as_slice()).unwrap_or(&[]) {
         let op = st[0].as_str().unwrap();
         let a = |i: usize| unhex(&st[i]);
@@ -467,6 +473,8 @@ fn handle(req: &Value) -> Value {
         "combined" => quals::combined(req),
         #[cfg(feature = "pt")]
         "ptype" => quals::ptype(req),
+        #[cfg(all(feature = "pt", feature = "sd"))]
+        "ptype_de" => quals::ptype_de(req),
         other => json!({"unsupported": format!("op {}", other)}),
     }
 }
